@@ -50,6 +50,16 @@ theorem right_inv_of_vecMul_inj {n w : ℕ} (M : Matrix (Fin n) (Fin w) K)
   rw [← Matrix.mul_assoc, ← hu]
   exact u.mul_inv
 
+/-- Over an ordered field a matrix with linearly independent columns (`M·v = 0 → v = 0`) has a left
+    inverse (`(Mᵀ·M)⁻¹·Mᵀ`). -/
+theorem left_inv_of_mulVec_inj {m n : ℕ} (M : Matrix (Fin m) (Fin n) K)
+    (h : ∀ v : Fin n → K, M *ᵥ v = 0 → v = 0) : ∃ B : Matrix (Fin n) (Fin m) K, B * M = 1 := by
+  obtain ⟨B, hB⟩ := right_inv_of_vecMul_inj Mᵀ (fun v hv => h v (by rw [← vecMul_transpose]; exact hv))
+  refine ⟨Bᵀ, ?_⟩
+  have := congrArg Matrix.transpose hB
+  rw [transpose_mul, transpose_transpose, transpose_one] at this
+  exact this
+
 /-- the state sequence `x_0, …, x_{T−1}` as the columns of a matrix -/
 def kryMx {n : ℕ} (A : Matrix (Fin n) (Fin n) K) (x0 : Fin n → K) (T : ℕ) :
     Matrix (Fin n) (Fin T) K := Matrix.of fun k t => stateAt A x0 t.1 k
@@ -329,6 +339,67 @@ theorem krylov_right_inv {n : ℕ} (A V Vinv : Matrix (Fin n) (Fin n) F) (d : Fi
       = V * (diagonal c * ((W * Wr) * diagonal (fun i => (c i)⁻¹))) * Vinv := by
         simp only [Matrix.mul_assoc]
     _ = 1 := by rw [hW, Matrix.one_mul, hcc, Matrix.mul_one, hV]
+
+/-- row `I` of the block observability matrix applied to a vector (any field) -/
+theorem obsFn_dot' {n : ℕ} (r : ℕ) (A : Matrix (Fin n) (Fin n) F) (C : ℕ → Fin n → F) (I : ℕ)
+    (g : Fin n → F) :
+    ∑ k, obsFn r A C I k * g k = (C (I % r)) ⬝ᵥ ((A ^ (I / r)) *ᵥ g) := by
+  unfold obsFn
+  simp only [dotProduct, mulVec, Finset.sum_mul, Finset.mul_sum]
+  rw [Finset.sum_comm]
+  apply Finset.sum_congr rfl; intro x _
+  apply Finset.sum_congr rfl; intro y _
+  ring
+
+/-- **Observability from modal data**: `A` diagonalised by `V` with pairwise distinct eigenvalues,
+    every eigenvector seen by at least one of the `l` output rows (`C_a·V_k ≠ 0` for some `a < l`),
+    at least `n` block rows ⇒ the block observability matrix has a trivial kernel. -/
+theorem obs_inj_of_modal {n l p : ℕ} (A V Vinv : Matrix (Fin n) (Fin n) F) (d : Fin n → F)
+    (hV : V * Vinv = 1) (hAV : A * V = V * diagonal d) (hd : Function.Injective d)
+    (C : ℕ → Fin n → F) (hobs : ∀ k : Fin n, ∃ a, a < l ∧ (C a ⬝ᵥ fun j => V j k) ≠ 0) (hp : n ≤ p)
+    (v : Fin n → F) (hv : obsMx (p * l) l A C *ᵥ v = 0) : v = 0 := by
+  have hV' : Vinv * V = 1 := mul_eq_one_comm.mp hV
+  set z := Vinv *ᵥ v with hz
+  have hvz : v = V *ᵥ z := by rw [hz, mulVec_mulVec, hV, one_mulVec]
+  have hdet : (vandermonde d).det ≠ 0 := det_vandermonde_ne_zero_iff.mpr hd
+  -- for every output row a < l the weights (C_a·V_k)·z_k vanish
+  have hw : ∀ a, a < l → ∀ k : Fin n, (C a ⬝ᵥ fun j => V j k) * z k = 0 := by
+    intro a ha
+    have hl : 0 < l := by omega
+    have hrow : (fun k : Fin n => (C a ⬝ᵥ fun j => V j k) * z k) ᵥ* vandermonde d = 0 := by
+      funext i
+      have hI : i.1 * l + a < p * l := by
+        have : i.1 + 1 ≤ p := by have := i.2; omega
+        calc i.1 * l + a < i.1 * l + l := by omega
+          _ = (i.1 + 1) * l := by ring
+          _ ≤ p * l := Nat.mul_le_mul_right _ this
+      have h0 := congrFun hv ⟨i.1 * l + a, hI⟩
+      simp only [mulVec, obsMx, Matrix.of_apply, Pi.zero_apply, dotProduct] at h0
+      rw [obsFn_dot'] at h0
+      have hdiv : (i.1 * l + a) / l = i.1 := by
+        rw [Nat.add_comm, Nat.add_mul_div_right _ _ hl, Nat.div_eq_of_lt ha, Nat.zero_add]
+      have hmod : (i.1 * l + a) % l = a := by
+        rw [Nat.add_comm, Nat.add_mul_mod_self_right, Nat.mod_eq_of_lt ha]
+      rw [hdiv, hmod, hvz, mulVec_mulVec, pow_of_diag A V Vinv d hV hAV i.1, Matrix.mul_assoc,
+        Matrix.mul_assoc, hV', Matrix.mul_one, ← mulVec_mulVec] at h0
+      simp only [vecMul, dotProduct, vandermonde_apply, Pi.zero_apply]
+      rw [← h0]
+      have hdz : (diagonal fun k => d k ^ i.1) *ᵥ z = fun k => d k ^ i.1 * z k := by
+        funext k; rw [mulVec_diagonal]
+      rw [hdz]
+      simp only [dotProduct, mulVec, Finset.mul_sum, Finset.sum_mul]
+      rw [Finset.sum_comm]
+      apply Finset.sum_congr rfl; intro x _
+      apply Finset.sum_congr rfl; intro y _
+      ring
+    have := eq_zero_of_vecMul_eq_zero hdet hrow
+    intro k
+    exact congrFun this k
+  have hz0 : z = 0 := by
+    funext k
+    obtain ⟨a, ha, hne⟩ := hobs k
+    exact (mul_eq_zero.mp (hw a ha k)).resolve_left hne
+  rw [hvz, hz0, mulVec_zero]
 
 end general
 
